@@ -49,3 +49,29 @@ Proof.
   exists "rnn."%string, ["l0.ih.weight"%string], ["rnn.l0.ih.weight"%string], "rnn.l0.ih.weight"%string.
   split; [cbn; now left|]. split; [now left|]. exists "l0.ih.weight"%string. split; [now left | reflexivity].
 Qed.
+
+Lemma append_inj (p a b : string) : String.append p a = String.append p b -> a = b.
+Proof. induction p as [|c p IH]; cbn; intros H; [exact H|]. inversion H. now apply IH. Qed.
+
+(* the model's state_dict of a renamed layer stored under `prefix`: its raw keys are the renamed names followed by the sub-modules' own
+   names; when no renamed name is also a sub-module name, what is left is exactly the renamed names, in order *)
+Theorem rename_filter_exact (prefix : string) (olds news : list string) :
+  (forall n, In n news -> ~ In n olds) ->
+  rename_filter prefix olds (map (String.append prefix) (news ++ olds)) = map (String.append prefix) news.
+Proof.
+  intros D. unfold rename_filter. rewrite map_app, filter_app.
+  assert (A : forall l, (forall n, In n l -> ~ In n olds) ->
+              filter (fun k => negb (existsb (fun o => String.eqb k (String.append prefix o)) olds)) (map (String.append prefix) l) = map (String.append prefix) l).
+  { induction l as [|n l IH]; intros H; [reflexivity|]. cbn [map filter].
+    destruct (existsb _ olds) eqn:E.
+    - exfalso. apply existsb_exists in E. destruct E as (o & Ho & E). apply String.eqb_eq in E. apply append_inj in E. subst o.
+      exact (H n (or_introl eq_refl) Ho).
+    - cbn [negb]. f_equal. apply IH. intros m Hm. apply H. now right. }
+  assert (B : forall l, incl l olds ->
+              filter (fun k => negb (existsb (fun o => String.eqb k (String.append prefix o)) olds)) (map (String.append prefix) l) = []).
+  { induction l as [|n l IH]; intros H; [reflexivity|]. cbn [map filter].
+    assert (E : existsb (fun o => String.eqb (String.append prefix n) (String.append prefix o)) olds = true).
+    { apply existsb_exists. exists n. split; [apply H; now left | apply String.eqb_refl]. }
+    rewrite E. cbn [negb]. apply IH. intros m Hm. apply H. now right. }
+  rewrite (A news D), (B olds (incl_refl olds)). apply app_nil_r.
+Qed.
